@@ -190,6 +190,9 @@ class Decimal(SimpleModel):
     def validate_string(cls, value):
         return SimpleModel.validate_string(cls, value) and (
             value is None or (len(value) <= cls.Attributes.max_str_len)
+            # redundant leading zeros are valid and do not count
+            or len(value.lstrip(b'+-0' if isinstance(value, bytes) else u'+-0'))
+                                                < cls.Attributes.max_str_len
         )
 
     @staticmethod
